@@ -627,6 +627,12 @@ fn probes() -> Vec<(&'static str, TSchema, Vec<St>)> {
 }
 
 fn main() {
+    // the engine frees a large top-of-heap buffer per query; keep glibc from returning it to the kernel
+    // every time (brk thrash made the quick tier many times slower under load)
+    unsafe {
+        libc::mallopt(libc::M_TRIM_THRESHOLD, 1 << 30);
+        libc::mallopt(libc::M_TOP_PAD, 64 << 20);
+    }
     let args = Args::parse("C10");
     engine::silence_panics();
     let mut rep = Report::new(&args, "history with at least one accepted and one rejected statement and >= 2 stored rows at some point");
